@@ -53,7 +53,7 @@ def random_spec(rng, name):
         elif name in ("modelw", "modelz"):
             kw = dict(nstates=int(rng.choice([2, 4, 6, 8, 10])), eps=float(rng.uniform(0.05, 0.2)))
         elif name == "shin-metiu":
-            kw = dict(nstates=int(rng.integers(2, 5)), nel=32)
+            kw = dict(nstates=int(rng.integers(2, 7)), nel=32)      # also MORE kept states than the default three
     if kw and name in ("simple", "dual", "extended") and rng.random() < 0.6:
         # the sign of a diabatic coupling constant is only a phase convention: negative values are legal
         key = {"simple": "c", "dual": "c", "extended": "b"}[name]
@@ -64,6 +64,7 @@ def random_spec(rng, name):
                   g=float(rng.uniform(0.002, 0.008)), D=float(rng.uniform(0.1, 0.3)), t=float(rng.uniform(0.01, 0.05)))
     if name == "shin-metiu" and "nel" not in kw:
         kw["nel"] = 32
+        kw["nstates"] = int(rng.integers(3, 7))
     if name == "subotnik2d":
         kw["mass"] = [2000.0, 2000.0]
     return {"name": name, "kwargs": kw}
@@ -157,6 +158,11 @@ def oracle_model(args):
     if dc.shape != (N, N, n) or fm.shape != (N, N, n) or force.shape != (N, n):
         problems.append("shapes: coupling %r, force matrix %r, force %r" % (dc.shape, fm.shape, force.shape))
         return False, {"problems": problems}, {}, "; ".join(problems)
+    for nm_, arr_ in (("Hamiltonian", H), ("derivative coupling", dc), ("force matrix", fm), ("force", force)):
+        if not np.all(np.isfinite(arr_)):
+            problems.append("%s is not finite (%d NaN/inf entries)" % (nm_, int(np.sum(~np.isfinite(arr_)))))
+    if problems and any("not finite" in p_ for p_ in problems):
+        return False, {"problems": problems[:3]}, {"problems": []}, "%s at x=%r: %s" % (args["name"], x.tolist(), "; ".join(problems[:2]))
     if np.max(np.abs(dc + np.transpose(dc, (1, 0, 2)))) > 1e-9 * (1 + float(np.max(np.abs(dc)))):
         problems.append("derivative coupling not antisymmetric")
     diag = max(float(np.max(np.abs(dc[i, i, :]))) for i in range(N))
@@ -217,6 +223,8 @@ def oracle_model(args):
             problems.append("diabatic representation: H != V or non-zero coupling")
         if dV.shape == (n,) + V.shape and np.max(np.abs(force + np.array([[dV[k][i, i] for k in range(n)] for i in range(N)]))) > 1e-14:
             problems.append("diabatic force != -diag dV")
+        if dV.shape == (n,) + V.shape and np.max(np.abs(fm + np.transpose(dV, (1, 2, 0)))) > 1e-14 * (1 + float(np.max(np.abs(dV)))):
+            problems.append("diabatic force matrix != -dV in the (state, state, dimension) layout")
     return not problems, {"problems": problems[:3]}, {"problems": []}, \
         "%s at x=%r: %s" % (args["name"], x.tolist(), "; ".join(problems[:2]) or "ok")
 
